@@ -8,6 +8,7 @@ import (
 	"math/big"
 	"reflect"
 	"strings"
+	"time"
 
 	"github.com/ipfs/go-cid"
 	"github.com/ipld/go-ipld-prime/datamodel"
@@ -339,6 +340,8 @@ func c10Mutations(kind, field string) []string {
 		for k := range c10IntValues {
 			muts = append(muts, k)
 		}
+		// a float that holds a whole number is still a wrongly typed time bound
+		muts = append(muts, "wholefloat=0", "wholefloat=1735689600", "wholefloat=-1", "wholefloat=9007199254740991", "wholefloat=4102444800")
 	case "cmd":
 		for i := range c10BadCommands {
 			muts = append(muts, fmt.Sprintf("badcmd=%d", i))
@@ -457,6 +460,10 @@ func applyMut(kind string, entries []kv, m c10Mut) ([]kv, bool) {
 			must = true // [1] is neither a statement list nor a link list
 		}
 		return replace(c10RetypeValues[k]()), must
+	case strings.HasPrefix(m.Mut, "wholefloat="):
+		var f float64
+		fmt.Sscanf(strings.TrimPrefix(m.Mut, "wholefloat="), "%g", &f)
+		return replace(nFloat(f)), true
 	case strings.HasPrefix(m.Mut, "int=") || strings.HasPrefix(m.Mut, "uint="):
 		in := m.Mut == "int=2^53-1" || m.Mut == "int=-(2^53-1)"
 		return replace(c10IntValues[m.Mut]()), !in
@@ -612,7 +619,7 @@ func c10DecoderSub() *engine.Sub {
 	return &engine.Sub{
 		Name:   "decoders-mutated-payloads",
 		Repeat: true,
-		Rule:   "payload of a fully populated delegation / invocation with one field (quick) or two fields (thorough, pairs of a representative subset) mutated - dropped, nulled, retyped to each IPLD kind, integers at +/-2^53, +/-(2^53-1), int64 extremes and uint64 beyond int64 in time fields / argument values / policy literals / metadata, invalid and unusual commands, invalid DIDs, nonce lengths 0..13, malformed policies and proof lists, an unknown extra field - then signed correctly by the issuer and offered to generic and both typed decoders; must-reject mutations must be rejected (a panic is not a rejection), whatever is returned must be well formed and of the decoder's type; non-trivial = all",
+		Rule:   "payload of a fully populated delegation / invocation with one field (quick) or two fields (thorough, pairs of a representative subset) mutated - dropped, nulled, retyped to each IPLD kind, integers at +/-2^53, +/-(2^53-1), int64 extremes and uint64 beyond int64 in time fields / argument values / policy literals / metadata, time fields as floats holding whole numbers, invalid and unusual commands, invalid DIDs, nonce lengths 0..13, malformed policies and proof lists, an unknown extra field - then signed correctly by the issuer and offered to generic and both typed decoders; must-reject mutations must be rejected (a panic is not a rejection), whatever is returned must be well formed and of the decoder's type; non-trivial = all",
 		Bound: func(t string) string {
 			return "2 kinds x every field x ~20-40 mutations (d=1); thorough adds pairs over 6 representative mutations per field; Ed25519 and P-256 issuers (nonce mutations: issuers of all 7 key algorithms)"
 		},
@@ -848,6 +855,17 @@ type c10ValCase struct {
 	Val  string `json:"val"`
 }
 
+// named types with a String method whose print-out is not the value
+type c10StrInt int
+type c10StrUint uint16
+type c10StrFloat float64
+type c10StrBool bool
+
+func (c10StrInt) String() string   { return "seven" }
+func (c10StrUint) String() string  { return "0x07" }
+func (c10StrFloat) String() string { return "one and a half" }
+func (c10StrBool) String() string  { return "yes" }
+
 type goValue struct {
 	Type string
 	Val  string
@@ -917,6 +935,12 @@ func c10GoValues() []goValue {
 		goValue{"struct", "struct{}", struct{ A int }{1}, nil}, goValue{"chan", "chan", make(chan int), nil}, goValue{"func", "func", func() {}, nil},
 		goValue{"map[int]int", "{1:1}", map[int]int{1: 1}, nil}, goValue{"nil", "nil", nil, nil}, goValue{"[]any", "[nil]", []any{nil}, nil},
 	)
+	// named numeric / bool types that also have a String method (fmt.Stringer): the VALUE is stored, not its print-out
+	r = append(r, goValue{"stringer-int64", "time.Duration(90s)", 90 * time.Second, bf(int64(90 * time.Second))}, goValue{"stringer-int", "time.March", time.March, bf(int64(3))},
+		goValue{"stringer-int", "time.Saturday", time.Saturday, bf(int64(6))}, goValue{"stringer-int", "c10StrInt(7)", c10StrInt(7), bf(int64(7))},
+		goValue{"stringer-uint", "c10StrUint(7)", c10StrUint(7), bf(uint64(7))}, goValue{"stringer-float", "c10StrFloat(1.5)", c10StrFloat(1.5), bf(float64(1.5))},
+		goValue{"stringer-bool", "c10StrBool(true)", c10StrBool(true), nil}, goValue{"[]stringer-int64", "[90s]", []time.Duration{90 * time.Second}, nil},
+		goValue{"map[string]stringer-int", "{m:March}", map[string]time.Month{"m": time.March}, nil})
 	// numbers in text form (encoding/json with UseNumber): kept as text, stored as exactly that number, or rejected
 	for _, t := range []string{"7", "-7", "9007199254740991", "9007199254740992", "9223372036854775807", "9223372036854775808", "12345678901234567890123", "-12345678901234567890123", "1.5", "1e400", "1e-400", "0.5e1", "not-a-number", ""} {
 		r = append(r, goValue{"json.Number", t, json.Number(t), nil})
@@ -1183,7 +1207,7 @@ func c10ValueSub() *engine.Sub {
 	return &engine.Sub{
 		Name:   "go-values-stored-exactly",
 		Repeat: true,
-		Rule:   "every Go numeric type x {0, +/-1, +/-(2^53-1), +/-2^53, type min, type max}, float specials, named types, containers and pointers carrying boundary numbers, strings, bytes, CIDs, IPLD nodes, numbers in text form (json.Number, up to 23 digits and beyond the float64 range) and unsupported types, handed to literal.Any, args.Add, args.Builder (Build / BuildIPLD), args.ToIPLD, args.Include + Clone, invocation.WithArgument / WithArguments and meta.Add: the call returns an error (never panics) or stores a node whose numbers are mathematically equal to the supplied ones and whose whole content (kinds, strings, bytes, booleans, links, list order and length, map keys) equals the reference rendering of the Go value; a second Add of a key is rejected and leaves the first value in place; arguments additionally never hold an integer beyond +/-(2^53-1); non-trivial = numeric values",
+		Rule:   "every Go numeric type x {0, +/-1, +/-(2^53-1), +/-2^53, type min, type max}, float specials, named types, containers and pointers carrying boundary numbers, strings, bytes, CIDs, IPLD nodes, numbers in text form (json.Number, up to 23 digits and beyond the float64 range), named numeric / bool types with a String method (time.Duration, time.Month, ...) and unsupported types, handed to literal.Any, args.Add, args.Builder (Build / BuildIPLD), args.ToIPLD, args.Include + Clone, invocation.WithArgument / WithArguments and meta.Add: the call returns an error (never panics) or stores a node whose numbers are mathematically equal to the supplied ones and whose whole content (kinds, strings, bytes, booleans, links, list order and length, map keys) equals the reference rendering of the Go value; a second Add of a key is rejected and leaves the first value in place; arguments additionally never hold an integer beyond +/-(2^53-1); non-trivial = numeric values",
 		Bound:  func(string) string { return fmt.Sprintf("%d Go values x 10 entry points", len(vals)) },
 		Gen: func(tier string, emit func(any) bool) {
 			for _, v := range vals {
